@@ -109,6 +109,16 @@ class Trace:
         self.ops.append({'op': 'delay', 'ids': ['$%d.%d' % (opi, k) for k in ks], 'delay': '0'})
         return err
 
+    def seek0(self):
+        """seek the subscription back to before everything (revives every retained acknowledged message)"""
+        ex = self.ex
+        k0 = self.mark()
+        p = tr.params(ex, 'SeekSubscriptionToTimeParams', Name='projects/p/subscriptions/s', ID=None, Time=reldb.TMIN)
+        act, tx, err = run_action(ex, self.db, A + 'NewSeekSubscriptionToTime', [p], '(*' + A + 'SeekSubscriptionToTime).Execute')
+        self.step_gap(k0)
+        self.ops.append({'op': 'seek_time', 'name': 'projects/p/subscriptions/s', 'time': str(reldb.TMIN)})
+        return err
+
     def prune_completed(self):
         ex = self.ex
         k0 = self.mark()
@@ -147,6 +157,7 @@ TEMPLATES_QUICK = [
     ['pub', 'pub', 'pull', 'ack', 'prune_completed', 'pull'],
 ]
 TEMPLATES_THOROUGH = TEMPLATES_QUICK + [
+    ['pub', 'pull', 'ack', 'pub', 'seek0', 'pub', 'pull', 'ack', 'pull', 'pull'],
     ['pub', 'pub', 'pub', 'pull', 'ack', 'pull', 'ack', 'pull'],
     ['pub', 'pub', 'pub', 'pull', 'nack', 'pull', 'ack', 'pull'],
     ['pub', 'pull', 'pub', 'pub', 'ack', 'pull', 'ack', 'pull'],
@@ -209,12 +220,25 @@ def main():
                     err = trace.ack(last_pull, ks) if step == 'ack' else trace.nack(last_pull, ks)
                     if err is not None:
                         raise PathAbort('ack failed')
+                elif step == 'seek0':
+                    err = trace.seek0()
+                    if err is not None:
+                        raise PathAbort('seek failed')
                 elif step == 'prune_completed':
                     trace.prune_completed()
                 elif step == 'prune_expired':
                     trace.prune_expired()
             ob.reached(ex)
         chk.run('bmc[%s]' % ' '.join(tpl), prog, harness, bounds={'template': tpl}, setup=world.setup, max_paths=200000)
+    # inductive lemma (arbitrary pre-state): the predecessor chosen at publish time
+    import checks.oracles as O
+    from gosym.step import run_transition
+    T = tr.Publish()
+    T.name = 'lemma:publish-chains-behind-latest-same-key'
+    T.sizes = {'Topic': 1, 'Subscription': 1, 'Message': 2, 'Delivery': 2} if not chk.thorough else {'Topic': 1, 'Subscription': 2, 'Message': 3, 'Delivery': 3}
+    T.sizes_thorough = None
+    T.oracle = lambda ex, S: O.c05_predecessor(ex, S, T)
+    run_transition(chk, prog, T, max_paths=200000)
     chk.finish()
 
 
